@@ -178,13 +178,33 @@ def loader(run, p):
         I = Interp(p)
         I.extra_calls['unittest.TestLoader.getTestCaseNames'] = lambda self_, c: list(all_names[c])
         I.extra_calls['super().getTestCaseNames'] = lambda c: list(all_names[c])
+        lo = Obj(L)
+        lo.attrs.update(testMethodPrefix='test', testNamePatterns=None, sortTestMethodsUsing=None, check=False)
         try:
-            got = I.call(g, [k], selfobj=Obj(L))
+            got = I.call(g, [k], selfobj=lo)
         except Unsupported as e:
             raise AnalysisError('getTestCaseNames is not evaluable: %s' % e)
         run.ob('C19-LOADER', 'getTestCaseNames:%s' % k.__name__, sorted(got or []) == want[k],
                'for a class %s its own tag the loader keeps %s (expected %s)' % ('with' if k is Tagged else 'without', sorted(got or []), want[k]), fn=g)
-    run.floor('C19-LOADER', n + 4, 8)
+    # unittest's own selection (-k patterns, the method prefix) is made by the base loader: the tagged loader only narrows it
+    for k, selected, expect in ((Untagged, ['test_own_tagged', 'test_own_plain'], ['test_own_tagged']), (Untagged, [], []),
+                                (Tagged, ['test_inherited_plain'], ['test_inherited_plain'])):
+        I = Interp(p)
+        I.extra_calls['unittest.TestLoader.getTestCaseNames'] = lambda self_, c, selected=selected: list(selected)
+        I.extra_calls['super().getTestCaseNames'] = lambda c, selected=selected: list(selected)
+        lo = Obj(L)
+        lo.attrs.update(testMethodPrefix='test', testNamePatterns=['*own*'], sortTestMethodsUsing=None, check=False)
+        try:
+            got = I.call(g, [k], selfobj=lo)
+        except Unsupported as e:
+            raise AnalysisError('getTestCaseNames is not evaluable: %s' % e)
+        run.ob('C19-LOADER', 'getTestCaseNames:%s:unittest-selected=%s' % (k.__name__, ','.join(selected) or 'none'), sorted(got or []) == sorted(expect),
+               'unittest selects %s of %s (a -k pattern): the tagged loader keeps %s (expected %s)' % (selected, k.__name__, sorted(got or []), sorted(expect)), fn=g)
+    run.floor('C19-LOADER', n + 7, 11)
+    from .common import nocache_rule
+    nocache_rule(run, 'C19-NOSHARED', p, ['tdda.referencetest.referencetestcase', 'tdda.referencetest.referencepytest'],
+                 'one tagged run or listing cannot change the next: no memoising decorator and no class-level container in the loaders that '
+                 'remembers classes or tests across loader objects (a second listing in the same process would drop what the first one named)')
 
 
 def _truth(e, env):
